@@ -5,7 +5,7 @@ W = {'rect': 0.3, 'oct': 0.45, 'share': 0.1, 'lat': 0.05, 'gp': 0.1, 'abut': 0.2
 
 
 def run(rep, tier, seed):
-    relrun.run_rel(rep, 'C11', tier, seed, relprops.build_c11_stage1, W, 60 if tier == 'quick' else 1500,
+    relrun.run_rel(rep, 'C11', tier, seed, relprops.build_c11_stage1, W, 120 if tier == 'quick' else 1500,
                    'each group = the 4 first-stage results of (A,B) fed back as left or right operand of a second operation with an '
                    'independent third operand or A or B again (6 of the 16 operation pairs in the quick tier, all in the thorough tier); '
                    'the final region must be the pointwise combination (verified checker).',
